@@ -127,7 +127,7 @@ func init() {
 	props["C05"] = &propDef{Level: "exploration", Rule: ruleExpl + "at least two acquisition writes (two terms) in the store log", Assume: base,
 		Plan: func(t string) []PlanItem { return append(generalPlan(t, true), finePlan("C05", t)...) }}
 	props["C07"] = &propDef{Level: "exploration", Rule: ruleExpl + "some instance was promoted", Assume: base,
-		Plan: func(t string) []PlanItem { return generalPlan(t, false) }}
+		Plan: func(t string) []PlanItem { return append(generalPlan(t, false), finePlan("C07", t)...) }}
 	props["C08"] = &propDef{Level: "exploration", Rule: ruleExpl + "a promotion callback ran", Assume: base,
 		Plan: func(t string) []PlanItem { return append(generalPlan(t, true), finePlan("C08", t)...) }}
 	props["C09"] = &propDef{Level: "exploration", Rule: ruleExpl + "a stop call returned", Assume: base,
